@@ -159,6 +159,13 @@ def run(ctx, chk):
     # A10.8 = B12.2: compaction punches only under the locks that keep writers and allocators out
     from props.c12 import punch_lock_rules
     punch_lock_rules(ctx, chk, "A10.8")
+    # A10.9 in-place growth looks at everything that may lie behind the region, including other threads' in-flight
+    # reservations
+    from props.c05 import occupied_maps_consulted
+    occupied_maps_consulted(ctx, chk, "A10.9", ["start_to_reserved", "start_to_hole", "pending_holes"])
+    # A10.10 = E3: sources that cache absolute offsets pin the placement they were computed from
+    from props.c20 import pins
+    pins(ctx, chk, "A10.10")
     # A10.3 LAYOUT is not held at any call that reaches set_min_len
     smm = M(r"rawdb::Database::set_min_len", reach=True)
     n = 0
